@@ -136,6 +136,16 @@ CLAIMS = {
         'Agreement with an independent reference on all inputs is not decided.',
    design='DESIGN.md section 4 C14; rules R-SLICE, R-FOLD, R-PAIR, R-TYPE, R-ORDER',
    technique='per-class contradiction/pairing lints over the AST with reaching-definition provenance'),
+ 'C15': dict(
+   text='Static analysis (level "other"), narrow: error discipline of both multi-client batchers (identity of the preprocessor '
+        'and equality of the feature set checked on every path before a dataset\'s examples are used), conservation shape of '
+        'buffered_shuffle (incoming item replaces exactly one buffered item which is yielded exactly once on every path; all '
+        'other buffer writes are two-slot swaps; tail emits the whole buffer; randomness only from the supplied generator), '
+        'buf/buf_size pairing and slice contiguity in the padded multi-client batcher, one item per (dataset,row) and final '
+        'flush in the example shuffler, and the replay discipline of RepeatableIterator. The carry-over arithmetic of the batcher '
+        'and non-triviality of the order are NOT decided.',
+   design='DESIGN.md section 4 C15; rules R-ERR, R-CONSERVE, R-REPLAY',
+   technique='CFG dominance (checks before use, yield on every path) + permutation-shaped assignment recognition + paired-update checks'),
  'C16': dict(
    text='Static analysis (level "other"): writer/reader table agreement for the msgpack scheme (every extension code packed is '
         'unpacked by the inverse helper with equal tuple arity; codes distinct), C-order on both sides, byte order normalised '
@@ -166,6 +176,16 @@ CLAIMS = {
    design='DESIGN.md section 4 C17; rules R-CLIP01, R-PARTICIPANT, R-CLIPNORM, R-SIMPLEX, R-DIV, R-HYP, R-IGNORE, R-API',
    technique='must-pass-through provenance checks over reaching definitions + denominator/guard classification + installed-API check',
    note='R-API imports the installed jax/numpy/haiku/optax packages (not fedjax) to inspect signatures.'),
+ 'C18': dict(
+   text='Static analysis (level "other"), deliberately narrow: sibling/pairing agreement between structured_rotation[_pytree] and '
+        'inverse_structured_rotation[_pytree] - per-leaf keys by split(rng, len(leaves)) zipped in flatten order on both sides, '
+        'Rademacher signs of the shape of the vector that is transformed, scaling by the reciprocal square root of that vector\'s '
+        'length (normal form of x/sqrt(d), x*(1/sqrt(d)), x*d**-0.5), sign-then-transform vs transform-then-sign, zero padding '
+        'to the power-of-two ceiling at the end and cropping to prod(original shape). That the Kronecker/einsum schedule equals '
+        'the Sylvester matrix, norm preservation and invertibility up to rounding - the larger half of the property - are NOT '
+        'decided by this family.',
+   design='DESIGN.md section 4 C18; rules R-SIB.rotation, R-KEY',
+   technique='sibling-implementation comparison with algebraic normal forms of the scale factor'),
  'C19': dict(
    text='Static analysis (level "other"): for each cache completion marker (a path whose existence skips work) every '
         'writer that can create it is shown, on all normal CFG paths, to write a distinct temp name and publish it by '
